@@ -18,4 +18,11 @@ RULE = _base.SPACE_TEXT + (
     "normally or never started")
 globals().update(_base.std(monitors.c13, drain=True))
 
-from .c11 import items                           # noqa: E402,F401
+from . import c11                                # noqa: E402
+
+
+def items(tier, seed):
+    # same space as C11, minus its re-run family: no property quantifies
+    # over repeated runs of one tree, and C13's "exactly once" is per
+    # scheduler object (`_did_shutdown`)
+    return c11.items(tier, seed, rerun=False)
